@@ -2,6 +2,7 @@
   PV.Model.SftpFileLemmas — helpers for PV.Props.C27: overlay algebra, `_write_all` against the server model.
 -/
 import PV.Model.PyFile
+import PV.Model.BufFileLemmas
 namespace PV.SftpFile
 open PV PV.BufFile
 
@@ -67,5 +68,106 @@ theorem srvWrite_append (s : Srv) (off : Nat) (d : Bytes) (ha : s.append = true)
     (srvWrite s off d).stale = s.stale := by
   unfold srvWrite
   simp [ha, Coherent]
+
+end PV.SftpFile
+
+namespace PV.SftpFile
+open PV PV.BufFile
+
+/-- server-side facts no write changes -/
+def srvSame (a b : Srv) : Prop :=
+  a.append = b.append ∧ a.hopen = b.hopen ∧ a.truncZero = b.truncZero ∧ a.didRead = b.didRead ∧ a.stale = b.stale
+
+/-- client-side facts `_write_all` does not change -/
+def cliSame (a b : BF Srv) : Prop :=
+  a.rd = b.rd ∧ a.wr = b.wr ∧ a.app = b.app ∧ a.bin = b.bin ∧ a.buffered = b.buffered ∧ a.lineBuf = b.lineBuf ∧
+  a.bufsize = b.bufsize ∧ a.dflt = b.dflt ∧ a.rbuf = b.rbuf ∧ a.wbuf = b.wbuf ∧ a.closed = b.closed
+
+theorem sftpOps_write (maxReq : Nat) (s : Srv) (p : Int) (d : Bytes) :
+    (sftpOps maxReq).write s p d =
+      if p < 0 then (s, .error (.stream eStruct))
+      else (srvWrite s p.toNat (d.take (min d.length maxReq)), .ok (min d.length maxReq)) := rfl
+
+theorem writeAllLoop_sftp_noapp (maxReq : Nat) (hm : 1 ≤ maxReq) (fuel : Nat) (f : BF Srv) (data : Bytes)
+    (hf : data.length < fuel) (h0 : 0 ≤ f.realpos) (hc : Coherent f.s) (ha : f.app = false) (hsa : f.s.append = false) :
+    (writeAllLoop (sftpOps maxReq) fuel f data).2 = .ok () ∧
+    (writeAllLoop (sftpOps maxReq) fuel f data).1.s.content = overlay f.s.content f.realpos.toNat data ∧
+    (writeAllLoop (sftpOps maxReq) fuel f data).1.pos = f.pos + data.length ∧
+    (writeAllLoop (sftpOps maxReq) fuel f data).1.realpos = f.realpos + data.length ∧
+    (writeAllLoop (sftpOps maxReq) fuel f data).1.size = f.size ∧
+    Coherent (writeAllLoop (sftpOps maxReq) fuel f data).1.s ∧
+    srvSame (writeAllLoop (sftpOps maxReq) fuel f data).1.s f.s ∧
+    cliSame (writeAllLoop (sftpOps maxReq) fuel f data).1 f := by
+  induction fuel generalizing f data with
+  | zero => omega
+  | succ fuel ih =>
+    rw [writeAllLoop]
+    by_cases he : data.isEmpty = true
+    · have : data = [] := by simpa using he
+      subst this
+      simp [overlay_nil, hc, srvSame, cliSame]
+    · have hne : data ≠ [] := by simpa using he
+      have hlen : 0 < data.length := List.length_pos_iff.2 hne
+      have hk : 1 ≤ min data.length maxReq := by omega
+      have hk0 : (min data.length maxReq == 0) = false := beq_false_of_ne (by omega)
+      have hneg : ¬ f.realpos < 0 := by omega
+      obtain ⟨w1, w2, w3, w4, w5, w6, w7⟩ := srvWrite_noappend f.s f.realpos.toNat (data.take (min data.length maxReq)) hc hsa
+      simp only [he, Bool.false_eq_true, if_false, sftpOps_write, hneg, hk0]
+      have hr : (f.realpos + (min data.length maxReq : Nat)).toNat = f.realpos.toNat + (data.take (min data.length maxReq)).length := by
+        simp only [List.length_take]; omega
+      have hd : (data.drop (min data.length maxReq)).length < fuel := by
+        simp only [List.length_drop]; omega
+      split
+      · rename_i happ
+        exact absurd happ (by simp [ha])
+      · have := ih
+          { f with s := srvWrite f.s f.realpos.toNat (data.take (min data.length maxReq)),
+                   pos := f.pos + (min data.length maxReq : Nat),
+                   realpos := f.realpos + (min data.length maxReq : Nat) }
+          (data.drop (min data.length maxReq)) hd (by simp only; omega) w2 ha w3
+        obtain ⟨i1, i2, i3, i4, i5, i6, i7, i8⟩ := this
+        refine ⟨i1, ?_, ?_, ?_, i5, i6, ?_, i8⟩
+        · rw [i2]; simp only; rw [w1, hr, overlay_append, List.take_append_drop]
+        · rw [i3]; simp only [List.length_drop]; omega
+        · rw [i4]; simp only [List.length_drop]; omega
+        · obtain ⟨a, b, c, d, e⟩ := i7
+          exact ⟨by rw [a, w3, hsa], b.trans w4, c.trans w5, d.trans w6, e.trans w7⟩
+
+end PV.SftpFile
+
+namespace PV.SftpFile
+open PV PV.BufFile
+
+theorem writeAll_sftp_noapp (maxReq : Nat) (hm : 1 ≤ maxReq) (f : BF Srv) (data : Bytes)
+    (h0 : 0 ≤ f.realpos) (hc : Coherent f.s) (ha : f.app = false) (hsa : f.s.append = false) :
+    (writeAll (sftpOps maxReq) f data).2 = .ok () ∧
+    (writeAll (sftpOps maxReq) f data).1.s.content = overlay f.s.content f.realpos.toNat data ∧
+    (writeAll (sftpOps maxReq) f data).1.pos = f.pos + data.length ∧
+    (writeAll (sftpOps maxReq) f data).1.realpos = f.realpos + data.length ∧
+    (writeAll (sftpOps maxReq) f data).1.size = f.size ∧
+    Coherent (writeAll (sftpOps maxReq) f data).1.s ∧
+    srvSame (writeAll (sftpOps maxReq) f data).1.s f.s ∧
+    cliSame (writeAll (sftpOps maxReq) f data).1 f :=
+  writeAllLoop_sftp_noapp maxReq hm (data.length + 1) f data (by omega) h0 hc ha hsa
+
+theorem flush_sftp_noapp (maxReq : Nat) (hm : 1 ≤ maxReq) (f : BF Srv)
+    (h0 : 0 ≤ f.realpos) (hc : Coherent f.s) (ha : f.app = false) (hsa : f.s.append = false) :
+    (flush (sftpOps maxReq) f).2 = .ok () ∧
+    (flush (sftpOps maxReq) f).1.s.content = overlay f.s.content f.realpos.toNat f.wbuf ∧
+    (flush (sftpOps maxReq) f).1.pos = f.pos + f.wbuf.length ∧
+    (flush (sftpOps maxReq) f).1.realpos = f.realpos + f.wbuf.length ∧
+    (flush (sftpOps maxReq) f).1.size = f.size ∧
+    Coherent (flush (sftpOps maxReq) f).1.s ∧
+    srvSame (flush (sftpOps maxReq) f).1.s f.s ∧
+    (flush (sftpOps maxReq) f).1.wbuf = [] ∧
+    cliSame (flush (sftpOps maxReq) f).1 { f with wbuf := [] } := by
+  unfold flush
+  obtain ⟨h1, h2, h3, h4, h5, h6, h7, h8⟩ := writeAll_sftp_noapp maxReq hm f f.wbuf h0 hc ha hsa
+  rcases hres : writeAll (sftpOps maxReq) f f.wbuf with ⟨f1, r1⟩
+  rw [hres] at h1 h2 h3 h4 h5 h6 h7 h8
+  simp only at h1 h2 h3 h4 h5 h6 h7 h8
+  subst h1
+  obtain ⟨a, b, c, d, e, g, h, i, j, _, l⟩ := h8
+  exact ⟨by triv, h2, h3, h4, h5, h6, h7, by triv, ⟨a, b, c, d, e, g, h, i, j, by triv, l⟩⟩
 
 end PV.SftpFile
